@@ -376,8 +376,11 @@ class C05(PropBase):
         if se is None:
             return
         m, a = op["m"], op.get("a", {})
-        if se.model.call_expect(m, a) != "accept":
+        exp = se.model.call_expect(m, a) if (se.role == "c" or m == "unbind" or isinstance(a.get("id"), int)) else None
+        if exp not in ("accept", "refuse"):
             return
+        if exp == "refuse":
+            st.hit("refused_attempt")
         ev = w.apply(op)
         if ev.get("noop"):
             return
